@@ -11,11 +11,15 @@ import (
 func (u *UseCase) Begin(ctx context.Context, isoLevel model.TxIsoLevel) (string, error) {
 	id := u.idGen.Generate()
 
+	// The snapshot point is drawn and registered in one step: the collector must
+	// not compute a horizon in between, and transactions register in point order.
+	sequence.LockSnapshot()
 	err := u.txRepo.Store(ctx, model.Transaction{
 		Id:       id,
 		IsoLevel: isoLevel,
 		Seq:      sequence.Next(),
 	})
+	sequence.UnlockSnapshot()
 	if err != nil {
 		return "", fmt.Errorf("tx repository store: %w", err)
 	}
